@@ -378,8 +378,12 @@ def gen_topology(scn, rng):
     for _ in range(rng.randrange(1, 4)):
         r = rng.random()
         s = rng.choice(servers)
-        if r < 0.35:
+        if r < 0.2:
             hist.append(('SetParent', [s, rng.choice(racks + ['rack:nosuch', 'rack:nosuch'])]))
+        elif r < 0.35:
+            # the record of a server that is down (instances retained) is rewritten smaller
+            hist.append(('NodeDown', [s]))
+            hist.append(('SetCapacity', [s, rng.randrange(len(scn['sprofiles'])) + 1]))
         elif r < 0.55:
             hist.append(('Blackout', [s]))
         elif r < 0.7:
